@@ -39,13 +39,14 @@ def required_cells(tier):
 
 
 def cases(rng, budget, widx, nworkers, tier):
+    sm = lambda: tier == "quick" or rng.random() < 0.5      # thorough: half of the bodies from the full families (prisms, bipyramids, general hulls)
     i = widx
     while True:
         ka, kb, kc = TRIPLES[i % 343]
         i += 1
-        a = gen.rand_obj(rng, ka, small=True)
+        a = gen.rand_obj(rng, ka, small=sm())
         r = rng.random()
-        b = gen.targeted(rng, kb, a) if r < 0.8 else gen.rand_obj(rng, kb, small=True)
+        b = gen.targeted(rng, kb, a) if r < 0.8 else gen.rand_obj(rng, kb, small=sm())
         K.reset()
         try:
             ab = K.as_body(K.inter(a, b))
@@ -60,7 +61,7 @@ def cases(rng, budget, widx, nworkers, tier):
             except Exception:
                 c = None
         if c is None:
-            c = gen.targeted(rng, kc, rng.choice((a, b))) if rng.random() < 0.7 else gen.rand_obj(rng, kc, small=True)
+            c = gen.targeted(rng, kc, rng.choice((a, b))) if rng.random() < 0.7 else gen.rand_obj(rng, kc, small=sm())
         yield {"a": a, "b": b, "c": c, "ls": rng.getrandbits(30)}
 
 
